@@ -3,10 +3,12 @@
 
     Case layout (integers; a float is written as mantissa m and binary exponent e, value m*2^e —
     exact, and much shorter to parse than numerator/denominator; [mkF] decodes it):
-      D Dz dt sd sdz (2 each)  vadv  nmax
-      nmax particle rows:  dx dy u v w (2 each)          -- metric and advective velocity of particle p
+      D Dz dt sd sdz (2 each)  vadv
       total, then total draws xi (2 each)                 -- the part of the stream the run consumed
-      nsteps, then per step:  n  cnt  and n rows  X0 X1 Y0 Y1 Z0 Z1 (2 each)
+      nsteps, then per step:  n  cnt  and n rows  dx dy u v w X0 X1 Y0 Y1 Z0 Z1 (2 each)
+    where dx dy are the grid's metric AT THE PARTICLE'S POSITION BEFORE THE STEP (the stub grid of the harness
+    has a position-dependent metric, so a metric cached from an earlier step or another particle is seen)
+    and u v w the water velocity there.
     [sd], [sdz] are the standard deviations sqrt(2D/dt), sqrt(2Dz/dt) as floats; they are inputs of the
     executable model and are first checked against the model's squares [sd2] (relative 1e-12).
     [cnt] is the number of draws the implementation's generator advanced in the step (found by the
@@ -61,42 +63,38 @@ Definition check_dir (xs : list Q) (oi : option Z) (c2 a0 a1 adv model : Q) : bo
   end.
 
 Definition check_particle (D Dz dt sd sdz : Q) (vadv : bool) (xs : list Q) (k n p : Z)
-           (par obs : list Q) : bool :=
-  match par, obs with
-  | [dx; dy; u; v; w], [x0; x1; y0; y1; z0; z1] =>
+           (obs : list Q) : bool :=
+  match obs with
+  | [dx; dy; u; v; w; x0; x1; y0; y1; z0; z1] =>
       let r := update_disp (xi_of_list xs) D Dz dt sd sdz vadv k n p dx dy u v w in
       check_dir xs (step_index (switch D) (switch Dz) k n DX p) (cx2 D dt dx) x0 x1 (u * dt / dx) (dX r) &&
       check_dir xs (step_index (switch D) (switch Dz) k n DY p) (cx2 D dt dy) y0 y1 (v * dt / dy) (dY r) &&
       check_dir xs (step_index (switch D) (switch Dz) k n DZ p) (cz2 Dz dt) z0 z1
                 (if vadv then w * dt else 0) (dZ r)
-  | _, _ => false
+  | _ => false
   end.
 
 Fixpoint check_particles (D Dz dt sd sdz : Q) (vadv : bool) (xs : list Q) (k n p : Z)
-         (pars obss : list (list Q)) : bool :=
+         (obss : list (list Q)) : bool :=
   match obss with
   | [] => true
   | obs :: orest =>
-      match pars with
-      | par :: prest =>
-          check_particle D Dz dt sd sdz vadv xs k n p par obs &&
-          check_particles D Dz dt sd sdz vadv xs k n (p + 1) prest orest
-      | [] => false
-      end
+      check_particle D Dz dt sd sdz vadv xs k n p obs &&
+      check_particles D Dz dt sd sdz vadv xs k n (p + 1) orest
   end.
 
 Fixpoint check_steps (fuel : nat) (D Dz dt sd sdz : Q) (vadv : bool) (xs : list Q) (total : Z)
-         (pars : list (list Q)) (k : Z) (l : list Z) : bool :=
+         (k : Z) (l : list Z) : bool :=
   match fuel with
   | O => match l with [] => k =? total | _ => false end
   | S f =>
       match l with
       | n :: cnt :: r =>
-          let '(obss, r') := rows (Z.to_nat n) 6 r in
+          let '(obss, r') := rows (Z.to_nat n) 11 r in
           (Z.of_nat (length obss) =? n) &&
           (step_draws (switch D) (switch Dz) n =? cnt) &&
-          check_particles D Dz dt sd sdz vadv xs k n 0 pars obss &&
-          check_steps f D Dz dt sd sdz vadv xs total pars
+          check_particles D Dz dt sd sdz vadv xs k n 0 obss &&
+          check_steps f D Dz dt sd sdz vadv xs total
                       (knext (update_layout (switch D) (switch Dz) k n)) r'
       | _ => false
       end
@@ -108,16 +106,15 @@ Definition sd_ok (sd D dt : Q) : bool :=
 
 Definition check_case (c : list Z) : bool :=
   match takeq 5 c with
-  | ([D; Dz; dt; sd; sdz], vadv :: nmax :: r) =>
-      let '(pars, r1) := rows (Z.to_nat nmax) 5 r in
+  | ([D; Dz; dt; sd; sdz], vadv :: r1) =>
       match r1 with
       | total :: r2 =>
           let '(xs, r3) := takeq (Z.to_nat total) r2 in
           match r3 with
           | nsteps :: r4 =>
               Qlt_bool 0 dt && sd_ok sd D dt && sd_ok sdz Dz dt &&
-              (Z.of_nat (length pars) =? nmax) && (Z.of_nat (length xs) =? total) &&
-              check_steps (Z.to_nat nsteps) D Dz dt sd sdz (negb (vadv =? 0)) xs total pars 0 r4
+              (Z.of_nat (length xs) =? total) &&
+              check_steps (Z.to_nat nsteps) D Dz dt sd sdz (negb (vadv =? 0)) xs total 0 r4
           | [] => false
           end
       | [] => false
